@@ -63,6 +63,9 @@ fn check_inner(case: &Case, obs: &mut Obs) -> CheckResult {
     if s.ended_idle {
         obs.label("worker-exited-idle");
     }
+    if s.slot_expired_sends > 0 {
+        obs.label("send-while-slot-holds-expired-path");
+    }
     if s.hot_loop {
         obs.label("refetch-hot-loop(min_delay=0)");
     }
@@ -165,7 +168,7 @@ fn case_strategy(max_ops: usize) -> impl Strategy<Value = Case> {
 }
 
 fn run_random(ctx: &Ctx) {
-    let n = ctx.tier.pick(5_000, 400_000);
+    let n = ctx.tier.pick(10_000, 400_000);
     let max_ops = ctx.tier.pick(30, 60);
     ctx.run_prop("histories-random", n, || case_strategy(max_ops), check);
 }
